@@ -102,16 +102,32 @@ def run_tasks(tasks, budget_s, workers=None, stop_on_violation=False, progress=N
     broken = None
     with cf.ProcessPoolExecutor(max_workers=workers, mp_context=ctx) as ex:
         pending = set()
-        it = iter(tasks)
+        # 'priority' chunks (the systematic sweeps) go first, but only while less than half of the budget is used: on a
+        # tree where every sweep point happens to be slow they must not starve the seeded sampling altogether
+        prio = [t for t in tasks if (t.get('config') or {}).get('priority')]
+        rest = [t for t in tasks if not (t.get('config') or {}).get('priority')]
+        flip = [False]
         exhausted = False
+
+        def next_task():
+            if prio and (not rest or (time.time() - t0) < budget_s * 0.5):
+                return prio.pop(0)
+            if rest and (not prio or flip[0]):
+                flip[0] = False
+                return rest.pop(0)
+            flip[0] = True
+            if prio:
+                return prio.pop(0)
+            return rest.pop(0) if rest else None
 
         def top_up():
             nonlocal exhausted
             while not exhausted and len(pending) < workers * 3:
-                try:
-                    pending.add(ex.submit(work, next(it)))
-                except StopIteration:
+                t = next_task()
+                if t is None:
                     exhausted = True
+                else:
+                    pending.add(ex.submit(work, t))
 
         top_up()
         while pending:
